@@ -225,6 +225,7 @@ static void exhaustiveCase(uint64_t idx0, CaseResult &r) {
 
 int main(int argc, char **argv) {
   std::vector<vf::Part> parts;
+  parts.push_back(vf::threaded("c14.threads", [](uint64_t, Rng &rng, CaseResult &r) { randomCase(rng, r, true); }, 4, 25, 120));
   parts.push_back({"c14.random", [](uint64_t, Rng &rng, CaseResult &r) { randomCase(rng, r, false); }, 10});
   parts.push_back({"c14.zeros", [](uint64_t, Rng &rng, CaseResult &r) { randomCase(rng, r, true); }, 10});
   parts.push_back({"c14.exhaustive", [](uint64_t idx, Rng &, CaseResult &r) { exhaustiveCase(idx, r); }, 20});
